@@ -205,7 +205,7 @@ u64 gen_sum(const Ref& r, std::index_sequence<I...>)
         [&]
         {
             using P = typename LT::template At<I>;
-            if constexpr (std::is_same_v<typename PI<P>::V, Tr>)
+            if constexpr (std::is_same_v<typename PI<P>::V, Tr> || std::is_same_v<typename PI<P>::V, Am>)
             {
                 if constexpr (PI<P>::kind == K_PLAIN)
                 {
@@ -223,12 +223,23 @@ u64 gen_sum(const Ref& r, std::index_sequence<I...>)
         ...);
     return s;
 }
-static usize tr_fields(const MElem<LT::N>& e)
+template <class... P>
+static usize gen_fields_impl(const MElem<LT::N>& e, L<P...>)
 {
-    M one{};
-    one.n = 1;
-    one.e[0] = e;
-    return tr_count<LT>(one);
+    const bool counted[LT::N] = {(std::is_same_v<typename PI<P>::V, Tr> || std::is_same_v<typename PI<P>::V, Am>)...};
+    usize n = 0;
+    for (usize j = 0; j < LT::N; ++j)
+    {
+        if (counted[j])
+        {
+            n += e.len[j];
+        }
+    }
+    return n;
+}
+static usize tr_fields(const MElem<LT::N>& e)  // objects of a type that counts how often it was moved from (Tr, Am)
+{
+    return gen_fields_impl(e, LT{});
 }
 
 static void part2()
